@@ -418,6 +418,47 @@ def run(ctx, report):
     from .c19 import imm_typing_rule
     imm_typing_rule(ctx, R9)
 
+    # ---------------------------------------------------------------- D10 brackets around a sized operand keep the size
+    R10 = report.rule('C03.D10', 'a bracket production keeps the PTR size of the operand inside it (the renderer writes `call [WORD PTR 4660]`): grammar actions evaluated', floor=2)
+    from ..consteval import Evaluator as _Ev10, NotConst as _NC10, PyRaise as _PR10
+    pad = ctx.mod('parse_ad')
+    from .c19 import productions as _prods
+    n10 = 0
+    for fname, fn in sorted(pad.funcs.items()):
+        if not fname.startswith('p_brackets'):
+            continue
+        pr = _prods(fn)
+        if pr is None:
+            continue
+        head, alts = pr
+        for alt in alts:
+            if 'ptrformula' not in alt:
+                continue
+            n10 += 1
+            idx = alt.index('ptrformula') + 1
+            for label, inner, want in (('WORD PTR 4660', {afs.imm: 4660, afs.ad: afs.u16, afs.size: afs.u16}, afs.u16),
+                                       ('BYTE PTR es:4', {afs.imm: 4, afs.ad: afs.u08, afs.size: afs.u08, afs.segm: 0}, afs.u08)):
+                t = [None] + ['[' if sym == 'LBRA' else ']' if sym == 'RBRA' else None for sym in alt]
+                t[idx] = dict(inner)
+                inst = '%s: [%s]' % (fname, label)
+                try:
+                    _Ev10({'x86_afs': afs}).call_user(fn, [t])
+                except _PR10 as e:
+                    R10.violation(inst, 'brackets-size:%s:raises:%s' % (fname, e.exc_name), 'the action of `%s` raises %s on [%s]' % (' '.join(alt), e.exc_name, label), where(pad, fn))
+                    continue
+                except _NC10 as e:
+                    raise AnalysisError('%s is outside the evaluable subset: %s' % (fname, e))
+                out = t[0]
+                if isinstance(out, dict) and out.get(afs.ad) == want and out.get(afs.size) == want:
+                    R10.ok(inst, sample='%s keeps the size %s' % (inst, want))
+                else:
+                    R10.violation(inst, 'brackets-size:%s' % fname, 'the action of `%s` turns [%s] into an operand with ad = %r, size = %r: the PTR size inside the brackets (%s) is lost, '
+                                  'and with it the 0x66 prefix of the instruction' % (' '.join(alt), label, out.get(afs.ad) if isinstance(out, dict) else out,
+                                                                                      out.get(afs.size) if isinstance(out, dict) else None, want), where(pad, fn),
+                                  witness="66 ff 15 34 12 00 00 renders as 'call [WORD PTR 4660]' and assembles back to ff 15 ..")
+    if n10 == 0:
+        raise AnalysisError('no bracket production takes a ptrformula: the renderer\'s `call [WORD PTR n]` cannot be read back')
+
     # ---------------------------------------------------------------- D8 x87 register rows accept the size the parser gives st(i)
     R8 = report.rule('C03.D8', 'x87 st(i) rows: the operand size the parser gives st(i) passes the size check of the row (check_size_modif); implicit-operand lists agree with the rows\' operand counts', floor=40)
     csm = arch.method('x86allmncs', 'check_size_modif')
@@ -546,4 +587,5 @@ MUTANTS = [
     ('normalize-list', 'miasmx/arch/ia32_arch.py', "        if len(args) == 2 and name in float_arith_p:\n            args[1:2] = []", "        if len(args) == 2 and name in float_arith:\n            args[1:2] = []", 'C03.D3'),
     ('ad-size-kw', 'miasmx/arch/ia32_arch.py', 'x86_afs.f80:"TBYTE PTR "', 'x86_afs.f80:"TWORD PTR "', 'C03.D1'),
     ('intel-untyped-imm', 'miasmx/arch/ia32_arch.py', "        x86_mn.arg_set_numpy_imm(args)\n        self.normalize_args(name, args, prefix)", "        self.normalize_args(name, args, prefix)", 'C03.D9'),
+    ('brackets-overwrite-size', 'miasmx/core/parse_ad.py', "    if not x86_afs.ad in t[2]:\n        t[2][x86_afs.ad] = True\n    t[0] = t[2]\n", "    t[2][x86_afs.ad] = True\n    t[0] = t[2]\n", 'C03.D10'),
 ]
